@@ -13,6 +13,8 @@ import (
 //	ErrNotPaired if the SKI is not in the (to be) paired list
 //	ErrNoConnectionFound if no connection for the SKI was found
 func (h *Hub) PairingDetailForSki(ski string) *api.ConnectionStateDetail {
+	ski = util.NormalizeSKI(ski)
+
 	service := h.ServiceForSKI(ski)
 
 	if conn := h.connectionForSKI(ski); conn != nil {
@@ -125,6 +127,8 @@ func (h *Hub) RegisterRemoteSKI(ski string) {
 
 // Remove pairing for the SKI
 func (h *Hub) UnregisterRemoteSKI(ski string) {
+	ski = util.NormalizeSKI(ski)
+
 	service := h.ServiceForSKI(ski)
 	service.SetTrusted(false)
 
@@ -142,6 +146,8 @@ func (h *Hub) UnregisterRemoteSKI(ski string) {
 // Disconnect a connection to an SKI, used by a service implementation
 // e.g. if heartbeats go wrong
 func (h *Hub) DisconnectSKI(ski string, reason string) {
+	ski = util.NormalizeSKI(ski)
+
 	con := h.connectionForSKI(ski)
 	if con == nil {
 		return
@@ -152,6 +158,8 @@ func (h *Hub) DisconnectSKI(ski string, reason string) {
 
 // Cancels the pairing process for a SKI
 func (h *Hub) CancelPairingWithSKI(ski string) {
+	ski = util.NormalizeSKI(ski)
+
 	h.removeConnectionAttemptCounter(ski)
 
 	if existingC := h.connectionForSKI(ski); existingC != nil {
